@@ -2822,7 +2822,7 @@ Proof.
   intros [= _ <-] _. unfold Wp. cbn [st_with st_ready st_flushok st_fail_ready st_fail_send st_fail_flush
     st_fail_close st_fail_next st_cap st_coupled st_buffered].
   intros (A & B & C & D & E & F & G & H). repeat (split; [assumption|]).
-  destruct (st_coupled t); [auto|]. destruct H as [H|[H|H]]; auto. discriminate.
+  destruct (st_coupled t); [auto|]. destruct H as [H|[H|H]]; auto.
 Qed.
 
 Section Scripted.
